@@ -68,6 +68,10 @@ def response_for(spec, tag, method):
         if not spec["allow_1xx"] and "resp-1xx" in rs["feats"]:
             continue
         break
+    if spec.get("unsolicited_p") and not rs["close_after"] and rs["framing"] in ("cl", "chunked") and "resp-1xx" not in rs["feats"] and r.random() < spec["unsolicited_p"]:
+        # the origin writes something it was not asked for right behind a complete response (idle-timeout 408, garbage)
+        extra = r.choice([b"HTTP/1.1 408 Request Timeout\r\nContent-Length: 0\r\n\r\n", b"HTTP/1.1 200 OK\r\nContent-Length: 5\r\n\r\nstale", b"EXTRA-" + tag])
+        rs = dict(rs, raw=rs["raw"] + extra, feats=set(rs["feats"]) | {"r-unsolicited-after"})
     if rs["close_after"] and b"onnection: close" not in rs["raw"].split(b"\r\n\r\n", 1)[0]:
         # make the close visible in the head so that not reusing the connection is protocol-determined, not a race
         head, sep, rest = rs["raw"].partition(b"\r\n\r\n")
@@ -193,7 +197,22 @@ def _execute(spec, opts, rng, client_seg, server_seg, schedule, policy, m3, open
     stream = b"".join(q["raw"] for q in reqs)
     if client_cut is not None:
         stream = stream[:client_cut]
-    segs = peers.cut(stream, rng, client_seg)
+    if spec.get("sequential") and client_cut is None:
+        # a client that sends request k only after it holds the answer to request k-1 and the proxy is quiescent
+        # (every byte the origins have written so far was delivered, no hook or connect pending)
+        segs = []
+        for k, q in enumerate(reqs):
+            parts = peers.cut(q["raw"], rng, client_seg)
+            if k > 0 and parts:
+                prev = reqs[k - 1]["tag"]
+
+                def gate(drv, prev=prev):
+                    return prev in bytes(drv.out[drv.client]) and not drv.pending and not any(qq for c, qq in drv.inbox.items() if c is not drv.client)
+
+                parts[0] = (parts[0], gate)
+            segs += parts
+    else:
+        segs = peers.cut(stream, rng, client_seg)
     if client_cut is not None or client_eof:
         segs = segs + [sansio.EOF]
     d.attach_client_peer(sansio.ScriptPeer(segs))
